@@ -188,6 +188,33 @@ Definition order_pairs : list (string * string) :=
   (flat_map (fun r => map (fun h => (h, snd (fst r))) (snd r)) acquire_table ++
    flat_map (fun r => flat_map (fun h => map (fun l => (h, l)) (lookup_acq acq_closure (snd (fst r)))) (snd r)) call_lock_table).
 
+(* A rank for the locks: rank l = length of the longest chain of order pairs ending in l, computed by
+   |locks| rounds of relaxation. If every order pair goes from a smaller to a larger rank the order relation is
+   acyclic (cycles of any length make the test fail), and ranked acquisition cannot deadlock
+   (Proofs/LockOrderProofs.v, ordered_no_deadlock). *)
+Definition lock_names : list string :=
+  Eval vm_compute in dedup (map fst order_pairs ++ map snd order_pairs).
+
+Definition rank_lookup (tbl : list (string * nat)) (l : string) : nat :=
+  match find (fun e => String.eqb (fst e) l) tbl with Some e => snd e | None => 0 end.
+
+Definition rank_round (tbl : list (string * nat)) : list (string * nat) :=
+  map (fun l => (l, fold_left Nat.max
+                       (map (fun p => S (rank_lookup tbl (fst p)))
+                            (filter (fun p => String.eqb (snd p) l && negb (String.eqb (fst p) l)) order_pairs)) 0))
+      lock_names.
+
+Fixpoint rank_iter (n : nat) (tbl : list (string * nat)) : list (string * nat) :=
+  match n with O => tbl | S k => rank_iter k (rank_round tbl) end.
+
+Definition lock_rank_table : list (string * nat) :=
+  Eval vm_compute in rank_iter (List.length lock_names) (map (fun l => (l, 0)) lock_names).
+
+Definition lock_rank (l : string) : nat := rank_lookup lock_rank_table l.
+
+Definition order_pairs_ranked : bool :=
+  forallb (fun p => Nat.ltb (lock_rank (fst p)) (lock_rank (snd p))) order_pairs.
+
 Definition deadlock_pairs : list (string * string) :=
   filter (fun p => String.eqb (fst p) (snd p) ||
                    existsb (fun q => String.eqb (fst p) (snd q) && String.eqb (snd p) (fst q)) order_pairs) order_pairs.
